@@ -1,6 +1,7 @@
 package main
 
 import (
+	"github.com/pip-services3-gox/pip-services3-expressions-gox/tokenizers"
 	"github.com/pip-services3-gox/pip-services3-expressions-gox/calculator/parsers"
 	"time"
 	"fmt"
@@ -43,11 +44,36 @@ func propC02(c *Ctx) {
 	// numbers that end in an incomplete exponent: the characters after the mantissa are tokens of their own (2e+x is 2 e + x,
 	// no sentence), astral characters anywhere
 	for _, t := range []string{"2e+x", "7E+(3)", "1.5e+ 2", "2e-x", "3E-", "2e", "2e+", "1e+5x", "2e+5", "2e-5", "1.e+x", ".5e+x", "2e + x", "2 e+x", "2e+-3", "2e++3", "x + 2e+",
+		"00000000000000000042", "000000000000000000000000000007 + 1", "0000000000009223372036854775807", "00000000000000000000.5", "-00000000000000000042",
 		"3.5e38", "1e39", "4e38 + 1", "1 + 1e999", "99999999999999999999", "a[99999999999999999999]", "-3.5e38",
 		"\f", "\v", "\x1f", " \f ", "/* only a comment */", "/* c */ \f", "\x00", "\x01 \x02",
 		"x Iſ NULL", "x iſ not null", "falſe OR x", "a lıke 'b'", "x ıs null", "x ıN (1)", "nuLL", "TRUE aNd fAlSe", "x Iſ nuLL", "not falſe", "1 ıN 2", "x \u212a", "TRU\u0395",
 		"1 + 😀 2", "😀", "1 😀", "a + \U00010000", "\uffff 1", "1 \uffff + 2", "f(😀)", "'😀' + 😀"} {
 		runParseCase(c, t, "incomplete-exponent / astral")
+	}
+	// token lists made by hand: a number token whose text is no number is no constant - the sequence is rejected with a code
+	for _, tk := range []struct {
+		typ  int
+		text string
+	}{{tokenizers.Float, "1.2.3"}, {tokenizers.Float, "x.y"}, {tokenizers.Float, ""}, {tokenizers.Float, "1,5"}, {tokenizers.Integer, "12a"}, {tokenizers.Integer, ""}, {tokenizers.Integer, "1.5"}, {tokenizers.Float, "--1"}, {tokenizers.Integer, "0x"}} {
+		op := fmt.Sprintf("handtok %d %s", tk.typ, strRunes(tk.text))
+		c.record(op, true)
+		c.count("hand-made-number-token")
+		got := safeCall(func() string {
+			p := parsers.NewExpressionParser()
+			err := p.ParseTokens([]*tokenizers.Token{tokenizers.NewToken(tk.typ, tk.text, 1, 1)})
+			if err == nil {
+				var r []string
+				for _, t := range p.ResultTokens() {
+					r = append(r, encETok(t))
+				}
+				return "accepted as " + strings.Join(r, " ")
+			}
+			return "err " + errCode(err)
+		})
+		if !strings.HasPrefix(got, "err ") || got == "err <empty-code>" {
+			c.fail(Failure{Kind: "oracle", Op: op, Impl: got, Note: fmt.Sprintf("a number token with the text %q is no constant of the language: the token sequence must be rejected with an error code, it was %s", tk.text, got)})
+		}
 	}
 	// a parser that rejected very deep inputs before accepts the next sentence like a new one
 	{
